@@ -1613,10 +1613,12 @@ func (d *DotGit) PackRefs() (err error) {
 		return err
 	}
 	// Symbolic references stay loose, as with git pack-refs: a packed-refs
-	// line can only hold an object id.
+	// line can only hold an object id. Per-worktree references
+	// (refs/bisect, refs/rewritten, refs/worktree) stay loose as well:
+	// packed-refs is shared by every worktree.
 	looseRefs := refs[:0]
 	for _, ref := range refs {
-		if ref.Type() == plumbing.HashReference {
+		if ref.Type() == plumbing.HashReference && isCommonDirPath(ref.Name().String()) {
 			looseRefs = append(looseRefs, ref)
 		}
 	}
